@@ -121,6 +121,36 @@ Theorem C15_rekey_graphs :
 Proof. exact rekey_graphs. Qed.
 Print Assumptions C15_rekey_graphs.
 
+(* Unpickling ENTERED THROUGH A MODEL (pickle.dumps(model) reaches the machine through the model's
+   trigger partials; the machine is restored while the copy of that model is still an empty shell).
+   Classes without graphs: exactly the ordinary snapshot, so everything above applies. *)
+Theorem C15_via_model_nongraph :
+  forall (C S G : Type) (render : C -> option S -> G) (j : ident) (rm rl : ident -> ident)
+         (w : world S) (m : machine C G),
+  k_graph (m_cls m) = false -> snapshot_via render j rm rl w m = snapshot render rm rl w m.
+Proof. exact snapshot_via_nongraph. Qed.
+Print Assumptions C15_via_model_nongraph.
+
+(* Graph classes: the same world and the same tables as the ordinary snapshot, the graph table keyed
+   by the copy's models, every other model's graph regenerated from its state — but the entry
+   model's graph is generated WITHOUT a state (no state styled active; candidate finding KF-C15-4,
+   witness C15_via_model_refuted_graph below). *)
+Theorem C15_via_model_graph :
+  forall (C S G : Type) (render : C -> option S -> G) (j : ident) (rm rl : ident -> ident)
+         (w w' : world S) (m m' : machine C G),
+  wf m = true -> fresh rm rl w m = true ->
+  k_graph (m_cls m) = true -> In j (m_models m) ->
+  snapshot_via render j rm rl w m = Some (w', m') ->
+  (exists m0, snapshot render rm rl w m = Some (w', m0) /\
+              m_models m' = m_models m0 /\ m_mctx m' = m_mctx m0 /\ m_cmap m' = m_cmap m0 /\
+              m_qkeys m' = m_qkeys m0 /\ m_cfg m' = m_cfg m0) /\
+  keys (m_graphs m') = m_models m' /\
+  lookup (m_graphs m') (rm j) = Some (render (m_cfg m) None) /\
+  (forall i, In i (m_models m) -> i <> j ->
+     lookup (m_graphs m') (rm i) = Some (render (m_cfg m) (state_of w i))).
+Proof. exact snapshot_via_graph. Qed.
+Print Assumptions C15_via_model_graph.
+
 (* INDEPENDENT.  A lock held in the original is free in the copy: every PicklableLock the copy
    would enter (machine_context and per-model contexts) is unlocked, whatever the original's state. *)
 Theorem C15_locks_free :
@@ -238,3 +268,15 @@ Theorem C15_same_refuted_async_queue :
     map pm_queue (pv_models (resolve w' m')) = [false; false].
 Proof. exact ex_async_queue_stale. Qed.
 Print Assumptions C15_same_refuted_async_queue.
+
+(* KF-C15-4 (candidate)  a GraphMachine pickled through one of its models: the copy of that model has a
+   graph in which no state is styled active, unlike the regenerated graph of the original. *)
+Theorem C15_via_model_refuted_graph :
+  wf xgraph = true /\ fresh (xplus 100) (xplus 100) xworld xgraph = true /\ guard xgraph = true /\
+  exists w' m', snapshot_via xrender 10 (xplus 100) (xplus 100) xworld xgraph = Some (w', m') /\
+    m_models m' = [110; 111] /\
+    m_graphs m' = [(110, (7, None)); (111, (7, Some 1))] /\
+    map pm_graph (pv_models (normalize xrender (resolve xworld xgraph))) = [Some (7, Some 0); Some (7, Some 1)] /\
+    resolve w' m' <> normalize xrender (resolve xworld xgraph).
+Proof. exact ex_via_model_graph. Qed.
+Print Assumptions C15_via_model_refuted_graph.
